@@ -19,7 +19,9 @@ forest (any number of links) and every control history.
   `resolveVelocity_momentum_positional`, `three_body_averaging_counterexample`
 * `step_momentum_spring`, `step_momentum_positional`, `history_momentum_spring`,
   `history_momentum_positional`
-* rest case: see the end of the file (`rest_stays_at_rest_*_partial`, `…Stmt`).
+* rest case (partial): `jointForce_restLink`, `rest_stays_at_rest_spring_partial`,
+  `rest_stays_at_rest_positional_partial`, `jointDisplacements_free_link`; full statements as a
+  comment block (`…Stmt`).
 
 Helper lemmas live in `Brax/Lemmas/C04*.lean`.
 -/
